@@ -153,6 +153,16 @@ def work_generated(ctx, seed):
         check_format(ctx, b, fmt, 'gen:%d' % seed)
 
 
+def work_patho(ctx, k):
+    """every labelled pathological (valid) shape through every format"""
+    from basis_set_exchange import writers
+    pool = [f for f in gen.PATHOLOGICAL if f not in (gen.patho_dup_function, gen.patho_contraction_on_free)]
+    f = pool[k % len(pool)]
+    b = f(random.Random(ctx.seed * 31 + k))
+    for fmt in writers.write._writer_map:
+        check_format(ctx, b, fmt, 'patho:%s' % f.__name__)
+
+
 def run(ctx):
     ctx.rule = ('for store basis sets (element subsets) and generated dictionaries x output formats: the numbers the extracted model predicts '
                 '(translated function-type gate, the writer\'s translated normalisation pipeline run by the manipulation model, then every '
@@ -171,6 +181,7 @@ def run(ctx):
         pairs = [(n, md[n]['latest_version']) for n in names]
     store.parallel(ctx, work_store, pairs)
     store.parallel(ctx, work_generated, [ctx.seed * 59 + i for i in range(ctx.budget(80, 4000))])
+    store.parallel(ctx, work_patho, list(range(len(gen.PATHOLOGICAL) * ctx.budget(1, 20))))
 
 
 def replay(ctx, rec):
